@@ -22,6 +22,7 @@ def run(run):
               "only the six documented pairs are accepted" + ("" if r_ok else f" -- accepted/other exception: {bad[:3]}"),
               info=None if r_ok else dict(checker="contracts.corelib:nat_get_crss", inputs=dict(phase=bad[0][0], fabric=bad[0][1]), observed=str(bad[:3])))
     UF.c07_null(run)
+    UF.regime_glue(run)
     UF.c01_frame(run)
     GL.gbs_facets(run, which=("C07",))
     per = 1 if run.tier == "quick" else 8
